@@ -56,9 +56,11 @@ func init() {
 			Technique: "stateless model checking of the real commit pipeline (controlled scheduler, preemption-bounded DFS)",
 			Rule:      "every schedule of the harness threads over the enabled points with at most <bound> preemptions; distinct = distinct (commit-ts assignment, reader read-ts) outcomes"}
 		if q {
-			p.Stages = []Stage{sched("c03a", 0, 1, 20, nil), sched("c03a", 1, 16, 25, nil), sched("c03a", 2, 16, 30, nil)}
+			p.Stages = []Stage{sched("c03a", 0, 1, 20, nil), sched("c03a", 1, 16, 25, nil), sched("c03a", 2, 16, 30, nil), sched("c01flush", 2, 16, 20, prm("variant", "flush")),
+				bfs("lsm", 5, 40, prm("oracle", "c12", "mode", "normal", "keys", 2, "multi", true, "l0_tables", 1, "ops", "P Sa Da F C0 C1 O X"))}
 		} else {
-			p.Stages = []Stage{sched("c03a", 0, 1, 30, nil), sched("c03a", 1, 16, 60, nil), sched("c03a", 2, 16, 300, nil), sched("c03a", 3, 16, 300, nil)}
+			p.Stages = []Stage{sched("c03a", 0, 1, 30, nil), sched("c03a", 1, 16, 60, nil), sched("c03a", 2, 16, 300, nil), sched("c03a", 3, 16, 300, nil),
+				bfs("lsm", 7, 600, prm("oracle", "c12", "mode", "normal", "keys", 2, "multi", true, "l0_tables", 1, "ops", "P Sa Da F C0 C1 O X"))}
 		}
 		return p
 	}
@@ -70,9 +72,9 @@ func init() {
 			Rule:      "BFS states = canonical LSM shapes (per level: tables with their (key, version-rank, meta) lists and age class; memtable; watermark position); transitions = operations applied to the real DB"}
 		seeds := [][]string{seq("Sa F Sb F"), seq("Sa F Sa F"), seq("Sa F Sa F C0 Sb F Da F"), seq("Sa F Sb F Sa F Sb F A"), seq("Sa Sb F Sa Sb F C0 C0 Sa F Sb F C0")}
 		if q {
-			p.Stages = []Stage{bfs("lsm", 4, 40, prm("oracle", "c12")), bfs("lsm", 5, 75, prm("oracle", "c12", "ops", "Sa Sb Da Db F C0 C1 T"), seeds[:3]...), bfs("lsm", 3, 30, prm("oracle", "c12"), seeds[3:]...)}
+			p.Stages = []Stage{sched("c01flush", 2, 16, 20, prm("variant", "compact")), bfs("lsm", 4, 40, prm("oracle", "c12")), bfs("lsm", 5, 75, prm("oracle", "c12", "ops", "Sa Sb Da Db F C0 C1 T"), seeds[:3]...), bfs("lsm", 3, 30, prm("oracle", "c12"), seeds[3:]...)}
 		} else {
-			p.Stages = []Stage{bfs("lsm", 6, 600, prm("oracle", "c12")), bfs("lsm", 7, 900, prm("oracle", "c12"), seeds...), bfs("lsm", 5, 600, prm("oracle", "c12", "keys", 3, "nvk", 2), seeds...)}
+			p.Stages = []Stage{sched("c01flush", 3, 16, 300, prm("variant", "compact")), sched("c01flush", 2, 16, 300, prm("variant", "compact", "inmemory", false)), bfs("lsm", 6, 600, prm("oracle", "c12")), bfs("lsm", 7, 900, prm("oracle", "c12"), seeds...), bfs("lsm", 5, 600, prm("oracle", "c12", "keys", 3, "nvk", 2), seeds...)}
 		}
 		return p
 	}
@@ -210,4 +212,9 @@ func init() {
 		}
 		return p
 	}
+
+	planTable["C01"] = lsmPlan("Normal-mode histories on the real DB: writes (inline and value-log values), deletes, flushes, every picker compaction, table ageing, value-log GC, with up to two read-only snapshot transactions opened at arbitrary points and kept open; after EVERY transition every open snapshot re-reads every key by Get+ValueCopy, a prefetching forward iterator and a non-prefetching reverse iterator and must still see exactly the newest write at or below its read timestamp (a fresh transaction must see the latest state). Concurrent part: readers, committers, a flusher and a compaction interleaved under the controlled scheduler (see C03 scenarios).",
+		stateRule,
+		[]Stage{sched("c01flush", 2, 16, 30, prm("variant", "flush")), sched("c01flush", 2, 16, 30, prm("variant", "compact")), bfs("lsm", 5, 60, prm("oracle", "c12", "mode", "normal", "keys", 2, "ops", "Sa Sb Da F C0 C1 O X")), bfs("lsm", 4, 40, prm("oracle", "c12", "mode", "normal", "keys", 2, "big", true, "gc", true, "vlog_max_entries", 1, "ops", "Ba Bb Sa Da F C0 G O X"), seq("Ba Bb F"), seq("Ba Ba F C0"))},
+		[]Stage{sched("c01flush", 3, 16, 300, prm("variant", "flush")), sched("c01flush", 3, 16, 300, prm("variant", "compact")), sched("c01flush", 2, 16, 300, prm("variant", "compact", "inmemory", false)), bfs("lsm", 7, 900, prm("oracle", "c12", "mode", "normal", "keys", 2, "ops", "Sa Sb Da Db F C0 C1 O X A")), bfs("lsm", 6, 600, prm("oracle", "c12", "mode", "normal", "keys", 2, "big", true, "gc", true, "vlog_max_entries", 1, "ops", "Ba Bb Sa Da F C0 G O X"), seq("Ba Bb F"), seq("Ba Ba F C0")), bfs("lsm", 5, 600, prm("oracle", "c12", "mode", "normal", "keys", 2, "inmemory", true, "ops", "Sa Sb Da F C0 C1 O X"))})
 }
